@@ -49,7 +49,8 @@ func internCnamesBytes(b []byte) string {
 }
 
 func ReadBlockSummaries(fileName string,
-	summaryOnly bool) ([]*structs.BlockSummary, *structs.AllBlksMetaInfo, error) {
+	summaryOnly bool) (_ []*structs.BlockSummary, _ *structs.AllBlksMetaInfo, retErr error) {
+	defer utils.RecoverToError(&retErr, "ReadBlockSummaries: "+fileName)
 
 	blockSummaries := make([]*structs.BlockSummary, 0)
 	var allBmi *structs.AllBlksMetaInfo
@@ -207,7 +208,8 @@ func ReadSegMeta(fname string) (*structs.SegMeta, error) {
 	return &sm, nil
 }
 
-func ReadMetricsBlockSummaries(fileName string) ([]*structs.MBlockSummary, error) {
+func ReadMetricsBlockSummaries(fileName string) (_ []*structs.MBlockSummary, retErr error) {
+	defer utils.RecoverToError(&retErr, "ReadMetricsBlockSummaries: "+fileName)
 	mBlockSummaries := make([]*structs.MBlockSummary, 0)
 	err := blob.DownloadSegmentBlob(fileName, false)
 	if err != nil {
